@@ -258,7 +258,11 @@ func (s *Session) runUnits(names []string) ([]*UnitResult, error) {
 		go func() {
 			defer wg.Done()
 			for t := range ch {
-				script := t.ex.w.st.script(t.o.Assumes, t.o.Goal, true)
+				var vals []string
+				for _, k := range sortedKeys(t.o.Inputs) {
+					vals = append(vals, t.o.Inputs[k])
+				}
+				script := t.ex.w.st.script(t.o.Assumes, t.o.Goal, true, vals...)
 				t.o.SMTBytes = len(script)
 				fname := fmt.Sprintf("%s-%d", t.o.Name, t.id)
 				t.o.Res, _ = solve(s.workdir, fname, script, s.timeout, s.agree)
@@ -381,9 +385,9 @@ func cmdRun(fnArg, mod string, verbose bool, keep string, timeout int) int {
 					if o.Desc != "" {
 						fmt.Printf("      desc: %s\n", o.Desc)
 					}
-					m := parseModel(o.Witness.Res.Output)
+					m := parseValues(o.Witness.Res.Output)
 					for _, k := range sortedKeys(o.Witness.Inputs) {
-						if v, ok := m[o.Witness.Inputs[k]]; ok {
+						if v, ok := m[normSpace(o.Witness.Inputs[k])]; ok {
 							fmt.Printf("      %s = %s\n", k, v)
 						}
 					}
